@@ -10,7 +10,7 @@ import (
 func init() {
 	schedFiles["internal/locking/workspace_locker.go"] = instr.SchedConfig{
 		OsShim:       "grog/internal/zverif/vlockos",
-		Replace:      map[string]string{"processRunning(otherPid)": "os.ProcessRunning(otherPid)"},
+		Replace:      map[string]string{"processRunning(otherPid)": "os.ProcessRunning(otherPid)", "tryLockFile(file)": "os.TryLockFile(file)"},
 		ExtraImports: map[string]string{},
 	}
 	Registry["C10"] = func(c *Ctx) {
